@@ -501,6 +501,22 @@ def _nested_graph_references_value(nodes: Sequence[ir.Node], value: ir.Value) ->
     return any(_node_attributes_reference(node) for node in nodes)
 
 
+def _value_is_observed_outside_nodes(
+    graph: ir.Graph, nodes: Sequence[ir.Node], value: Optional[ir.Value]
+) -> bool:
+    """Return whether a value is visible beyond its consumer nodes.
+
+    Graph outputs and values captured by nested Loop/If bodies are not reported
+    by ``_consumer_nodes``; a rewrite that changes the layout of such a value (or
+    drops it) must treat them as additional consumers.
+    """
+    if value is None:
+        return False
+    return _value_is_graph_output(graph, value) or _nested_graph_references_value(
+        nodes, value
+    )
+
+
 def _known_integer_scalar(
     nodes: Sequence[ir.Node],
     value: ir.Value,
@@ -1087,6 +1103,10 @@ def remove_redundant_transpose_reduce_ir(graph: ir.Graph) -> None:
             if reducer_consumers[0] is not node:
                 # Should be covered by consumers scan logic, but double check
                 continue
+            if _value_is_observed_outside_nodes(graph, nodes, reducer_out_val):
+                # The reducer output keeps its transposed layout for graph
+                # outputs / nested-graph captures.
+                continue
 
             # 1. Update Reducer inputs
             # Input 0 becomes T1 input 0
@@ -1247,6 +1267,11 @@ def remove_redundant_transpose_add_forests_ir(graph: ir.Graph) -> None:
             if match is None:
                 continue
             add_nodes, perm_fwd, _perm_inv, input_transposes, output_transposes = match
+            if any(
+                _value_is_observed_outside_nodes(graph, nodes, _node_output(add_node))
+                for add_node in add_nodes
+            ):
+                continue
 
             # Rewrite Add inputs from Transpose(perm_fwd)(x) to x.
             for add_node in add_nodes:
@@ -1305,6 +1330,35 @@ def remove_redundant_transpose_add_forests_ir(graph: ir.Graph) -> None:
 
             changed = True
             break
+
+
+def _chain_is_layout_agnostic(
+    graph: ir.Graph,
+    nodes: Sequence[ir.Node],
+    head: ir.Node,
+    chain: Sequence[ir.Node],
+) -> bool:
+    """Guard for folding ``head -> chain... -> tail`` layout/shape pairs.
+
+    Every value that changes layout when the pair is removed must be private to
+    the chain, and every side operand of a chain node (Max/Min/Clip bounds, ...)
+    must be a scalar constant so that it broadcasts identically in both layouts.
+    """
+    carried: Optional[ir.Value] = _node_output(head)
+    for node in chain:
+        if _value_is_observed_outside_nodes(graph, nodes, carried):
+            return False
+        operands = _node_inputs(node)
+        if node.op_type == "CastLike":
+            # The second input only supplies the target dtype.
+            operands = operands[:1]
+        for iv in operands:
+            if iv is None or iv is carried:
+                continue
+            if not _is_scalar_const_value(iv):
+                return False
+        carried = _node_output(node)
+    return not _value_is_observed_outside_nodes(graph, nodes, carried)
 
 
 def remove_redundant_transpose_pairs_ir(graph: ir.Graph) -> None:
@@ -1415,6 +1469,11 @@ def remove_redundant_transpose_pairs_ir(graph: ir.Graph) -> None:
                 or not _is_inverse_perm(perm_fwd, perm_inv)
             ):
                 continue
+            if any(
+                _value_is_observed_outside_nodes(graph, nodes, _node_output(add_node))
+                for add_node in add_chain
+            ):
+                continue
 
             # Rewrite: move Add chain to pre-transpose layout (NCHW).
             for node in add_chain:
@@ -1512,6 +1571,11 @@ def remove_redundant_transpose_pairs_ir(graph: ir.Graph) -> None:
                 continue
             if t2_node not in output_transposes:
                 continue
+            if any(
+                _value_is_observed_outside_nodes(graph, nodes, _node_output(node))
+                for node in elem_nodes
+            ):
+                continue
 
             # Rewrite: replace transpose outputs feeding elementwise nodes with
             # their pre-transpose sources.
@@ -1549,8 +1613,11 @@ def remove_redundant_transpose_pairs_ir(graph: ir.Graph) -> None:
                 t_out = _node_output(t_node)
                 if t_out is None:
                     continue
-                if not _consumer_nodes(live_nodes, t_out):
-                    graph.remove(t_node)
+                if _consumer_nodes(live_nodes, t_out):
+                    continue
+                if _value_is_observed_outside_nodes(graph, live_nodes, t_out):
+                    continue
+                graph.remove(t_node)
 
             changed = True
             break
@@ -1600,6 +1667,11 @@ def remove_redundant_transpose_pairs_ir(graph: ir.Graph) -> None:
                 if not ok:
                     break
             if not ok:
+                continue
+            if _value_is_observed_outside_nodes(graph, nodes, t1_out) or any(
+                _value_is_observed_outside_nodes(graph, nodes, _node_output(node))
+                for node in elem_nodes
+            ):
                 continue
             t1_in = _first_input(T1)
             if t1_in is None:
@@ -1666,6 +1738,9 @@ def remove_redundant_transpose_pairs_ir(graph: ir.Graph) -> None:
                 perm1 = _transpose_perm(T1)
                 perm2 = _transpose_perm(T2)
                 if perm1 is None or perm2 is None or not _is_inverse_perm(perm1, perm2):
+                    i += 1
+                    continue
+                if not _chain_is_layout_agnostic(graph, nodes, T1, allowed_nodes):
                     i += 1
                     continue
                 if TRN_DEBUG:
@@ -1805,6 +1880,9 @@ def remove_redundant_reshape_pairs_ir(graph: ir.Graph) -> None:
                 continue
             allowed_fwd = list(reversed(allowed_nodes))
             chain_nodes: Set[ir.Node] = set(allowed_fwd)
+            if not _chain_is_layout_agnostic(graph, nodes, T1, allowed_fwd):
+                i += 1
+                continue
 
             # Safety gate: only fold reshape pairs when the chain is isolated.
             # If any intermediate elementwise output also feeds non-chain
